@@ -97,7 +97,7 @@ def jobs(tier):
 
 
 META = {
-    'functions': [],
+    'functions': ['bitmap_* (all operations of mir-bitmap.h)', 'VARR_* (all 14 operations of mir-varr.h)', 'DLIST append/prepend/insert_before/insert_after/remove/length/el', 'HTAB_do (incl. growth and rebuild)'],
     'undecided_part': '',
     'trusted_base': ['models/alloc.h', 'models/libc.h', 'models/bitmap_expand.h'],
     'assumptions': ['models/bitmap_expand.h stands for the real bitmap_expand in the proofs of its callers; the real body (a loop of VARR_push, each push proved under contract) is not checked against that model'],
